@@ -324,6 +324,8 @@ def gen_scenario(rng, focus):
             ops.append({'op': 'set_units', 'n': n, 'units': rng.choice(UNITS)})
         else:
             ops.append({'op': 'set_name', 'n': n, 'name': rng.choice(NAMES)})
+        if n < rank and rng.random() < 0.3:
+            ops[-1]['neg'] = True        # the same axis counted from the end (n - rank), as Python indexing spells it
     if stack:
         if ops and rng.random() < 0.6:
             # index the labels before the setters as well: what an earlier indexing returned must not influence a later one
@@ -385,13 +387,14 @@ def run_scenario(sc, scratch):
         o = {'raised': False}
         try:
             with core.quiet():
+                nn = (op['n'] - ar.rank) if op.get('neg') else op.get('n')
                 if op['op'] == 'set_dim':
-                    ar.set_dim(op['n'], mk_dimarg(op['dim']), units=op['units'], name=op['name'])
+                    ar.set_dim(nn, mk_dimarg(op['dim']), units=op['units'], name=op['name'])
                     o['arr'] = obs_arr(ar)
                 elif op['op'] == 'set_units':
-                    ar.set_dim_units(op['n'], op['units']); o['arr'] = obs_arr(ar)
+                    ar.set_dim_units(nn, op['units']); o['arr'] = obs_arr(ar)
                 elif op['op'] == 'set_name':
-                    ar.set_dim_name(op['n'], op['name']); o['arr'] = obs_arr(ar)
+                    ar.set_dim_name(nn, op['name']); o['arr'] = obs_arr(ar)
                 elif op['op'] == 'slices':
                     sl = []
                     for i, lab in enumerate(list(ar.slicelabels)):
@@ -428,6 +431,9 @@ def run_scenario(sc, scratch):
                             o['units_equal'] = (back.units == ar.units); o['name_equal'] = (back.name == ar.name)
                             if ar.is_stack and back.is_stack:
                                 try:
+                                    # one more stack Array with other labels comes to life after the read: `back` answers for its own
+                                    labs2 = ['decoy_first'] + [str(x) for x in reversed(list(back.slicelabels))]
+                                    decoy2 = emdfile.Array(data=np.zeros((1, 1, len(labs2))), name='decoy2', slicelabels=labs2)
                                     o['slices_equal'] = all(data_equal(np.asarray(back[l].data), np.asarray(ar[l].data)) for l in ar.slicelabels)
                                 except BaseException as e:
                                     o['slices_equal'] = False; o['slices_exc'] = type(e).__name__ + ': ' + str(e)[:80]
